@@ -29,7 +29,9 @@ def run(model, tier):
         "Riemann solvers (sa/rules/c17_pattern.py): every shock is compressive for all inputs because each wave-pattern threshold of "
         "RiemannIGEOS.driver makes the root equations of both neighbouring patterns vanish identically at the initial pressure of the "
         "side whose wave changes kind, the pattern with the shock on that side is selected for the smaller ur, and each branch solves "
-        "the root equation of the pattern its soln_type names; RiemannGenEOS.driver reads isentrope tables for px < p_side and Hugoniot "
+        "the root equation of the pattern its soln_type names, and each of the four root equations is strictly monotone in p with d root/d p and "
+        "d root/d ur of one common definite sign for all positive states and adiabatic indices > 1 (symbolic derivative of the normal form; "
+        "unique root, star pressure falls as ur grows); RiemannGenEOS.driver reads isentrope tables for px < p_side and Hugoniot "
         "tables for px > p_side of the same side. "
         "Shocks of other solvers, monotone fans and the Su-Olson ordering are numeric and not decided.")
     res.rule_text = 'instance = one averaged quantity of the transition cell'
